@@ -204,6 +204,13 @@ def run_space(binary, space, tier, nshards=None, hang_s=30.0, as_bytes=0, env=No
                 if (idx, getattr(w, "beat", b"")) != w.last:
                     w.last, w.last_t = (idx, getattr(w, "beat", b"")), now
                 elif hang_s and now - w.last_t > hang_s and idx is not None and idx < (1 << 64) - 2:
+                    if e.get("VERIF_SCHED") == "1" and not _busy(w.p.pid):
+                        # a scheduler-controlled exploration that neither progresses nor burns CPU: some thread is blocked in an
+                        # operation the scheduler does not model (the scheduler reports real deadlocks itself): the harness
+                        # cannot judge this code - a machinery error, never a verdict
+                        w.p.kill()
+                        w.p.wait()
+                        raise MachineryError("worker %s shard %d: no progress for %.0fs while idle - a thread is blocked outside the scheduler's control (an operation the instrumenter does not rewrite?)\n%s" % (space, w.shard, hang_s, open(w.errp).read()[-2000:]))
                     w.p.kill()
                     w.p.wait()
                     w.out.close(); w.err.close()
@@ -292,6 +299,20 @@ def run_space(binary, space, tier, nshards=None, hang_s=30.0, as_bytes=0, env=No
     log("[run] %-28s size=%d evals=%d nontrivial=%d states=%d trans=%d viol=%d complete=%s %.1fs" % (
         space, res.size, res.evals, res.nontrivial, res.states, res.transitions, res.nviol, res.complete, res.wall))
     return res
+
+
+def _busy(pid):
+    """Is the process burning CPU (utime+stime grows by more than 0.3 s in 1.5 s)?"""
+    def cpu():
+        try:
+            f = open("/proc/%d/stat" % pid).read().rsplit(")", 1)[1].split()
+            return (int(f[11]) + int(f[12])) / os.sysconf("SC_CLK_TCK")
+        except Exception:
+            return None
+    a = cpu()
+    time.sleep(1.5)
+    b = cpu()
+    return a is not None and b is not None and b - a > 0.3
 
 
 def crash_record(binary, space, tier, idx, kind, msg, errp, args, env):
